@@ -103,7 +103,7 @@ func verifyFunction(w *World, fn *ssa.Function) (rep *FnReport) {
 		if top.Pkg != nil {
 			pkgPath = top.Pkg.Pkg.Path()
 		}
-		for _, gi := range w.spec.GlobalInvs[pkgPath] {
+		for _, gi := range append(append([]*Clause{}, w.spec.GlobalInvs["extern"]...), w.spec.GlobalInvs[pkgPath]...) {
 			env := &SpecEnv{fx: fx, e: e, st: st, vars: map[string]*SV{}, pkg: gi.Pkg}
 			if sv := env.eval(gi.Expr); sv != nil && len(sv.V.L) == 1 {
 				e.assume(st, sv.V.L[0])
